@@ -6,6 +6,7 @@ package sftp
 
 import (
 	"bytes"
+	"context"
 	"errors"
 	"fmt"
 	"io"
@@ -49,8 +50,17 @@ func c03Gen(class string, seed uint64, tier string) *vfScenario {
 	}
 	if class == "torn" {
 		// writes park between the header and the payload of a packet; senders are gated by a probe of the write lock
+		// (parkwrites: inside the pipe's Write; site pkt.mid: between the two Write calls of one packet)
 		sites |= 8
-		sc.Cfg["parkwrites"] = 1
+		switch rng.IntN(4) {
+		case 0:
+			sc.Cfg["parkwrites"] = 1
+		case 1, 2:
+			sites |= 64
+		default:
+			sites |= 64
+			sc.Cfg["parkwrites"] = 1
+		}
 	}
 	sc.Cfg["sites"] = sites
 	sc.Cfg["concr"] = int64(rng.IntN(2))
@@ -100,8 +110,10 @@ func c03GenOp(rng *rand.Rand, t, P int, multi, mixed bool) vfOp {
 		return vfOp{K: "readat", T: t, H: rng.IntN(2), Off: int64(rng.IntN(3 * P)), N: ln()}
 	case x < 78:
 		return vfOp{K: "fstat", T: t, H: rng.IntN(2)}
-	case x < 86:
+	case x < 82:
 		return vfOp{K: "readdir", T: t, P: "/dir"}
+	case x < 86:
+		return vfOp{K: "readdirctx", T: t, P: "/dir"}
 	case x < 94 || (mixed && x < 97):
 		// the task's own file: slot 10+t, region owned by this op
 		return vfOp{K: "writeat", T: t, H: 10 + t, Off: int64(rng.IntN(2 * P)), N: ln(), B: int64(rng.IntN(1 << 20))}
@@ -129,7 +141,8 @@ func c03Exec(r *vfRun) {
 		return
 	}
 	env := &vfClientEnv{sim: sim, prop: "C03", c: c, files: map[int]*File{}, tag: tag}
-	if sc.cfg("parkwrites", 0) != 0 {
+	sim.addSource(env.cancelEvents)
+	if sc.cfg("parkwrites", 0) != 0 || sc.cfg("sites", 7)&64 != 0 {
 		sim.sendProbe = func() bool {
 			if c.clientConn.conn.TryLock() {
 				c.clientConn.conn.Unlock()
@@ -137,7 +150,7 @@ func c03Exec(r *vfRun) {
 			}
 			return false
 		}
-		srv.c2s.parkWrites = true
+		srv.c2s.parkWrites = sc.cfg("parkwrites", 0) != 0
 	}
 	// group ops per task
 	byTask := map[int][]vfOp{}
@@ -298,6 +311,11 @@ func c03Check(srv *vfScriptServer, res *vfOpResult, a, b []byte, own *[]byte, di
 		if res.VFS.Bsize != vfMix(h, 0)%1000000 || res.VFS.Namemax != vfMix(h, 10)%1000000 || res.VFS.Files != vfMix(h, 5)%1000000 {
 			return fmt.Sprintf("statvfs reply belongs to another request: %+v", *res.VFS)
 		}
+	case "readdirctx":
+		if errors.Is(res.Err, context.Canceled) {
+			return "" // abandoned by its caller; what matters is that nobody else is affected
+		}
+		fallthrough
 	case "readdir":
 		if res.Err != nil {
 			return fmt.Sprintf("unexpected error %v", res.Err)
